@@ -526,10 +526,23 @@ func main() {
 	fmt.Print(leanList("sites", sites))
 	fmt.Print(leanList("vars", vars))
 	fmt.Print(leanList("misc", ms))
+	// Direction of each comparison (what a change must NOT do for the hand model to stay valid):
+	//   consts: every constant the model was written against still exists with the same value
+	//           (new constants are harmless);
+	//   sites:  no NEW kind of in-place write (a removed write site is harmless);
+	//   vars:   no NEW package-level variable other than error values (errors.New / fmt.Errorf);
+	//   misc:   no NEW line other than a Copy() that clears the hook / has a value receiver, and
+	//           every expected Copy()/hash-binding line still holds.
+	fmt.Println("def benignVar (s : String) : Bool := s.endsWith \"|errors.New()\" || s.endsWith \"|fmt.Errorf()\"")
+	fmt.Println("def benignMisc (s : String) : Bool := s.startsWith \"copy|\" && (s.endsWith \"|hook-cleared\" || s.endsWith \"|value-receiver\")")
+	fmt.Println("def ok_consts : Bool := ZtypV.FactsExpected.consts.all (fun x => consts.contains x)")
+	fmt.Println("def ok_sites : Bool := sites.all (fun x => ZtypV.FactsExpected.sites.contains x)")
+	fmt.Println("def ok_vars : Bool := vars.all (fun x => ZtypV.FactsExpected.vars.contains x || benignVar x)")
+	fmt.Println("def ok_misc : Bool := misc.all (fun x => ZtypV.FactsExpected.misc.contains x || benignMisc x) && (ZtypV.FactsExpected.misc.all (fun x => misc.contains x))")
 	for _, n := range []string{"consts", "sites", "vars", "misc"} {
 		fmt.Printf("#eval IO.println s!\"FACT-DIFF %s new={%s.filter (fun x => !ZtypV.FactsExpected.%s.contains x)} missing={ZtypV.FactsExpected.%s.filter (fun x => !%s.contains x)}\"\n", n, n, n, n, n)
-		fmt.Printf("example : %s = ZtypV.FactsExpected.%s := by decide\n", n, n)
-		fmt.Printf("#eval IO.println \"FACT-OK %s\"\n", n)
+		fmt.Printf("example : ok_%s = true := by decide\n", n)
+		fmt.Printf("#eval IO.println (if ok_%s then \"FACT-OK %s\" else \"FACT-FAIL %s\")\n", n, n, n)
 	}
 	fmt.Println("end Generated")
 }
